@@ -161,6 +161,11 @@ func normalForm(chk *rules.Check, cfg config, base map[string][]byte, exempt map
 			for f, b := range r.Overlay {
 				overlay[f] = b
 				changed = true
+				if dd := os.Getenv("VERIF_NF_DEBUG_DIR"); dd != "" {
+					rel, _ := filepath.Rel(repoDir, f)
+					os.MkdirAll(filepath.Dir(filepath.Join(dd, rel)), 0o755)
+					os.WriteFile(filepath.Join(dd, rel), b, 0o644)
+				}
 			}
 			log = append(log, r.Inlined...)
 		}
